@@ -2371,7 +2371,7 @@ static iwrc _lx_split_addkv(struct iwlctx *lx, int idx, struct sblk *sblk) {
 
   pthread_spin_lock(&db->cursors_slk);
   for (struct iwkv_cursor *cur = db->cursors; cur; cur = cur->next) {
-    if (cur->cn && (cur->cn->addr == sblk->addr)) {
+    if (cur->cn && (cur->cn->addr == sblk->addr) && !(cur->cn->flags & SBLK_DB)) {
       if (cur->cnpos >= pivot) {
         memcpy(cur->cn, nb, sizeof(*cur->cn));
         cur->cn->kvblk = 0;
@@ -2780,6 +2780,13 @@ start:
         rc = IWKV_ERROR_NOTFOUND;
         goto finish;
       }
+    }
+    if (cur->cn->flags & SBLK_DB) {
+      // Database head/tail pseudo blocks are not refreshed by writers: take a fresh copy
+      off_t dbaddr = cur->cn->addr;
+      _sblk_release(lx, &cur->cn);
+      rc = _sblk_at(lx, dbaddr, 0, &cur->cn);
+      RCGO(rc, finish);
     }
     if (op == IWKV_CURSOR_NEXT) {
       if (cur->skip_next > 0) {
